@@ -5,7 +5,7 @@ from . import gcx
 
 ID = "C06"
 LEVEL = "exploration"
-BUDGET = {"quick": 1200, "thorough": 100000}
+BUDGET = {"quick": 1200, "thorough": 300000}
 RULE = ("case = history executed (i) in a fresh Cello Thread (teardown = collector deletion at thread exit) or (ii) in a "
         "fresh process' main thread (teardown = Cello_Exit through atexit, ledger read from an ELF destructor): new / "
         "new_root / new_raw of instrumented objects (malloc'd and arena-allocated), copy, explicit del / del_root / del_raw, "
